@@ -111,6 +111,10 @@ Proof.
     destruct (do_bind l (add_node (mkNode (NAlign kAlignData align) None) b)) as [b2 e]. cbn [fst] in HB.
     destruct (e =? kOk); cbn [fst]; [apply links_ok_add_node|]; exact HB.
   - apply links_ok_section; exact H.
+  - destruct (l =? nlabels b); [cbn [fst]; apply links_ok_add_node|]; exact H.
+  - (* add_func: three non-section nodes, then the cursor moves *)
+    eapply links_ok_same; [| | |apply links_ok_add_node; apply links_ok_add_node; apply links_ok_add_node; exact H]; reflexivity.
+  - destruct (cur_func b); exact H.
   - destruct i as [i|]; [destruct (in_range i (active b))|]; exact H.
   - destruct (in_range i (active b)); [|exact H]. cbn [fst]. apply links_ok_remove_range; [lia|exact H].
   - destruct (in_range i (active b)); [|exact H]. destruct (in_range j (active b)); [|exact H]. destruct (Nat.leb i j) eqn:E3; [|exact H].
